@@ -198,8 +198,11 @@ type layerTotals struct {
 	Found      []found
 	SigRuns    map[string]int64 // runs per violation signature as counted by the workers (Found is a sample)
 	Troubles   []string
-	Wall       float64
-	Crashes    int
+	Notes      []string // things worth saying that are neither violations nor trouble
+	// HangConfirmed: a run that exceeded the real-time cap was stuck again when re-run
+	HangConfirmed bool
+	Wall          float64
+	Crashes       int
 }
 
 func runLayer(layer string, total int, capSecs int) *layerTotals {
@@ -317,6 +320,39 @@ func runLayer(layer string, total int, capSecs int) *layerTotals {
 				hangMarker := filepath.Join(outDir, fmt.Sprintf("hang-%s-%d", layer, w))
 				if _, herr := os.Stat(hangMarker); herr == nil && exitCode(err) == 3 {
 					os.Remove(hangMarker)
+					// One run did not finish within the real-time cap. A machine that is busy with other
+					// things can do that to a run that is in order: the plan is executed again in a fresh
+					// process (the sim layer is deterministic - a run that is stuck is stuck again; the
+					// race layer gets two more tries) before anything is concluded from it.
+					mu.Lock()
+					believed := lt.HangConfirmed
+					mu.Unlock()
+					again := believed || jerr != nil || stuckAgain(jp, layer, fmt.Sprintf("stall-%s-%d-%d", layer, w, attempt))
+					if again && !believed {
+						mu.Lock()
+						lt.HangConfirmed = true // one confirmed stuck run: later ones of this batch are taken at their word
+						mu.Unlock()
+					}
+					if !again {
+						mu.Lock()
+						lt.Notes = append(lt.Notes, fmt.Sprintf("run seed %d (%s layer) exceeded the real-time cap once and finished normally when run again in a fresh process: not counted", jp.Seed, layer))
+						idx := int(jp.Seed - base*1_000_003)
+						doneRuns := (idx-from)/W + 1
+						if r != nil && r.Runs > doneRuns {
+							doneRuns = r.Runs
+						}
+						have := 0
+						if r != nil {
+							have = r.Runs
+						}
+						if doneRuns > have {
+							lt.Runs += doneRuns - have
+						}
+						mu.Unlock()
+						from = idx + W
+						n -= doneRuns
+						continue
+					}
 					if hangIsViolation && jerr == nil {
 						sig, isRepo = "hang", true
 						se = "panic: the run made no progress in real time (a goroutine is blocked on a lock that nothing will release)\n\ngoroutine 0 [running]:\n"
@@ -328,7 +364,11 @@ func runLayer(layer string, total int, capSecs int) *layerTotals {
 				mu.Lock()
 				lt.Crashes++
 				if jerr != nil || !isRepo {
-					lt.Troubles = append(lt.Troubles, fmt.Sprintf("worker %d died (%v) outside go-ipfix code: %s", w, err, tail(se, 2500)))
+					js := "plan not journalled"
+					if jerr == nil {
+						js = fmt.Sprintf("run seed %d", jp.Seed)
+					}
+					lt.Troubles = append(lt.Troubles, fmt.Sprintf("worker %d died (%v, %s) outside go-ipfix code: %s", w, err, js, tail(se, 2500)))
 					mu.Unlock()
 					return
 				}
@@ -396,6 +436,37 @@ func firstPanic(s string) string {
 
 // runPlan executes one plan in a fresh process and returns its outcome; a crash
 // inside go-ipfix code is converted into a panic violation.
+// stuckAgain executes a plan in a fresh process of the given layer and reports whether it fails to
+// finish in real time again (race layer: in any of two tries).
+func stuckAgain(pl *plan.Plan, layer, tag string) bool {
+	tries, limit := 1, 100*time.Second
+	if layer == "race" {
+		tries, limit = 2, 75*time.Second
+	}
+	for t := 0; t < tries; t++ {
+		pf := filepath.Join(scratch, fmt.Sprintf("plan-%s-%d.json", tag, t))
+		of := filepath.Join(scratch, fmt.Sprintf("outcome-%s-%d.json", tag, t))
+		os.WriteFile(pf, pl.JSON(), 0o644)
+		cmd := harnessCmd(layer, "-verif.mode=run", "-verif.plan="+pf, "-verif.out="+of, "-verif.runcap=600")
+		if layer == "race" {
+			cmd.Env = append(cmd.Env, "GORACE=halt_on_error=0 log_path="+of+".racelog")
+		}
+		if cmd.Start() != nil {
+			return true
+		}
+		done := make(chan error, 1)
+		go func() { done <- cmd.Wait() }()
+		select {
+		case <-done:
+		case <-time.After(limit):
+			cmd.Process.Kill()
+			<-done
+			return true
+		}
+	}
+	return false
+}
+
 func runPlan(pl *plan.Plan, tag string) *plan.Outcome {
 	layer := "sim"
 	if pl.Mode == "race" {
@@ -717,6 +788,9 @@ func main() {
 	var troubles []string
 	for _, lt := range layers {
 		troubles = append(troubles, lt.Troubles...)
+		for _, n := range lt.Notes {
+			fmt.Printf("note: %s\n", n)
+		}
 	}
 	// ---- evidence ---------------------------------------------------------
 	evalTotal := 0
